@@ -334,8 +334,8 @@ def main(tier, replay):
     V.phase('model checking')
 
     # 2. behaviours generated by TLC ----------------------------------------------
-    nsim = 2500 if thorough else 400
-    cap = None if thorough else 300      # exhaustive behaviours replayed per configuration
+    nsim = 2500 if thorough else 300
+    cap = None if thorough else 250      # exhaustive behaviours replayed per configuration
     tiny = {'utf-8': dict(Palette={0x61, 0x20AC, 0x1F600}, MaxStrings=2, MaxLen=1, MaxChunk=3,
                           MaxZeros=1),
             'utf-16': dict(Palette={0x61, 0x1F600}, MaxStrings=2, MaxLen=1, MaxChunk=3, MaxZeros=0),
